@@ -56,9 +56,9 @@ impl ReconstructedSlice {
     #[verifier::external_body]
     pub fn from_parts(payload: SlicePayload, any_shred: &ValidatedShred, slice_root: SliceRoot) -> (r: Self) { unimplemented!() }
 }
-// ASSUMED contract of fill_missing_shreds (src/shredder.rs; its loop skips every position that `is_some()`):
-// positions that hold a shred are left as they are.
-#[verifier::external_body]
+// contract of fill_missing_shreds (src/shredder.rs): positions that hold a shred are left as they are.
+// PROVED on the real body in unit `shred_fill` (there with the full characterisation of the regenerated shreds).
+#[verifier::external_body] /* proved-elsewhere */
 pub fn fill_missing_shreds(shreds: &mut [Option<ValidatedShred>; TOTAL_SHREDS], header: SliceHeader, raw_shreds: RawShreds, tree: &SliceMerkleTree, slice_sig: Signature)
     ensures forall|i: int| 0 <= i < TOTAL_SHREDS && (#[trigger] old(shreds)@[i]) is Some ==> final(shreds)@[i] == old(shreds)@[i]
 { unimplemented!() }
